@@ -676,6 +676,16 @@ func main() {
 	}
 
 	cases := enumerate(thorough)
+	if os.Getenv("C32_COUNT") != "" {
+		nf := 0
+		for _, c := range cases {
+			if c.Fresh {
+				nf++
+			}
+		}
+		fmt.Printf("%s: %d index cases (%d with a fresh-process pass) x %d queries\n", run.Tier, len(cases), nf, len(allQueries()))
+		os.Exit(0)
+	}
 	if mc := os.Getenv("C32_MAXCASES"); mc != "" {
 		// debugging / mutation-testing aid: only an evenly strided subset of the enumeration
 		var n int
@@ -704,7 +714,7 @@ func main() {
 		}
 		for i := j; i < len(cases); i += nJobs {
 			if deadline > 0 && time.Now().Unix() > deadline {
-				run.NotExhaustive(fmt.Sprintf("global time budget reached in job %d at case %d of %d", j, i, len(cases)))
+				run.Add("cases_skipped_by_time_budget", int64((len(cases)-i+nJobs-1)/nJobs))
 				break
 			}
 			w.runCase(cases[i])
@@ -721,8 +731,17 @@ func main() {
 	if thorough {
 		budget = 50 * time.Minute
 	}
+	if b := os.Getenv("C32_BUDGET_MIN"); b != "" { // override of the global time budget, in minutes
+		var m int
+		if fmt.Sscan(b, &m); m > 0 {
+			budget = time.Duration(m) * time.Minute
+		}
+	}
 	os.Setenv("C32_DEADLINE", fmt.Sprint(time.Now().Add(budget).Unix()))
 	run.Parallel(jobs, 0, budget+5*time.Minute, nil)
+	if sk, _ := run.Coverage["cases_skipped_by_time_budget"].(int64); sk > 0 {
+		run.NotExhaustive(fmt.Sprintf("global time budget of %v reached: %d of %d index cases not run (overloaded machine?)", budget, sk, len(cases)))
+	}
 
 	// measured description of the enumerated space
 	corp := map[string]bool{}
